@@ -9,6 +9,8 @@
                                  (LexFull32.lex_truncated_correct32 stops at |exponent| <= 10^9; beyond that both sides saturate)
      C07_f32_long_spec           the same as an option (None = NumberOutOfRange)
      C07_f32_negint_spec         Lex.negated_u64_as_float_bits F32 sig = bits of -(sig rounded once to binary32)
+     b64_of_b32_opp, b32_of_b64_of_b32   widening f32 -> f64 commutes with negation and is undone by narrowing
+     short_agree / long_agree / negint_agree   the three back ends of the glue against those of Model/NumF32.v
    and the definitions of the glue with the algorithm in it (section 4: finish_a .. parse_integer_a, deserialize_f32_a):
    Model/NumF32.v function for function, with every `rne_decimal32 ..` replaced by what the code runs
    (Lex.f32_fr / Lex.parse_truncated_float F32 / Lex.negated_u64_as_float_bits F32, decoded by f32::from_bits).
@@ -513,43 +515,81 @@ Proof.
     injection Hg as <-. split; [apply (rne_decimal32_shape D x)|exact Hi].
 Qed.
 
+(* widening is exact: every finite binary32 value is a binary64 value *)
+Lemma widen_exact (m : positive) (e : Z) (b sz : bool) : SpecFloat.bounded 24 128 m e = true ->
+  let z := if b then Zneg m else Zpos m in
+  let g := binary_normalize 53 1024 prec53_gt_0 prec53_lt_emax mode_NE z e sz in
+  B2R g = F2R (Float radix2 z e) /\ is_finite g = true /\ Bsign g = b.
+Proof.
+  intros Hb z g. destruct (b32_bounded_inv m e Hb) as (Hm & He & _).
+  pose proof (binary_normalize_correct 53 1024 prec53_gt_0 prec53_lt_emax mode_NE z e sz) as H.
+  cbv zeta in H. cbn [round_mode] in H.
+  assert (Hfmt : generic_format radix2 (SpecFloat.fexp 53 1024) (F2R (Float radix2 z e))).
+  { apply generic_format_F2R. intros _. unfold cexp, SpecFloat.fexp, SpecFloat.emin.
+    rewrite mag_F2R by (unfold z; destruct b; discriminate).
+    assert (Hmag : (mag radix2 (IZR z) <= 24)%Z).
+    { apply mag_le_bpow; [unfold z; destruct b; apply IZR_neq; discriminate|].
+      rewrite <- abs_IZR, bpow_IZR by lia. apply IZR_lt. unfold z. destruct b; cbn [Z.abs]; exact Hm. }
+    cbn [Fexp]. lia. }
+  rewrite round_generic in H by (try apply valid_rnd_N; exact Hfmt).
+  rewrite Rlt_bool_true in H.
+  - destruct H as (H1 & H2 & H3). split; [exact H1|]. split; [exact H2|]. unfold g. rewrite H3.
+    unfold z. destruct b.
+    + rewrite Rcompare_Lt; [reflexivity|]. apply F2R_lt_0. reflexivity.
+    + rewrite Rcompare_Gt; [reflexivity|]. apply F2R_gt_0. reflexivity.
+  - rewrite <- F2R_Zabs. replace (Z.abs z) with (Zpos m) by (unfold z; destruct b; reflexivity).
+    apply Rlt_le_trans with (bpow radix2 24 * bpow radix2 e)%R.
+    + unfold F2R. cbn [Fnum Fexp]. apply Rmult_lt_compat_r; [apply bpow_gt_0|].
+      rewrite bpow_IZR by lia. apply IZR_lt. exact Hm.
+    + rewrite <- bpow_plus. apply bpow_le. lia.
+Qed.
+
 (* widening commutes with negation *)
 Lemma b64_of_b32_opp : forall f : b32, b64_of_b32 (Bopp f) = Bopp (b64_of_b32 f).
 Proof.
   intros f. destruct f as [s|s| |s m e Hb]; try reflexivity.
   cbn [Bopp b64_of_b32].
-  destruct (b32_bounded_inv m e Hb) as (Hm & He & _).
-  set (z := fun b : bool => if b then Zneg m else Zpos m).
-  assert (HB : forall b sz, let g := binary_normalize 53 1024 prec53_gt_0 prec53_lt_emax mode_NE (z b) e sz in
-            B2R g = F2R (Float radix2 (z b) e) /\ is_finite g = true /\ Bsign g = b).
-  { intros b sz. pose proof (binary_normalize_correct 53 1024 prec53_gt_0 prec53_lt_emax mode_NE (z b) e sz) as H.
-    cbv zeta in H. cbn [round_mode] in H.
-    assert (Hfmt : generic_format radix2 (SpecFloat.fexp 53 1024) (F2R (Float radix2 (z b) e))).
-    { apply generic_format_F2R. intros _. unfold cexp, SpecFloat.fexp, SpecFloat.emin.
-      rewrite mag_F2R by (unfold z; destruct b; discriminate).
-      assert (Hmag : (mag radix2 (IZR (z b)) <= 24)%Z).
-      { apply mag_le_bpow; [unfold z; destruct b; apply IZR_neq; discriminate|].
-        rewrite <- abs_IZR, bpow_IZR by lia. apply IZR_lt. unfold z. destruct b; cbn [Z.abs]; exact Hm. }
-      cbn [Fexp]. lia. }
-    rewrite round_generic in H by (try apply valid_rnd_N; exact Hfmt).
-    rewrite Rlt_bool_true in H.
-    - destruct H as (H1 & H2 & H3). split; [exact H1|]. split; [exact H2|]. rewrite H3.
-      unfold z. destruct b.
-      + rewrite Rcompare_Lt; [reflexivity|]. apply F2R_lt_0. reflexivity.
-      + rewrite Rcompare_Gt; [reflexivity|]. apply F2R_gt_0. reflexivity.
-    - rewrite <- F2R_Zabs. replace (Z.abs (z b)) with (Zpos m) by (unfold z; destruct b; reflexivity).
-      apply Rlt_le_trans with (bpow radix2 24 * bpow radix2 e)%R.
-      + unfold F2R. cbn [Fnum Fexp]. apply Rmult_lt_compat_r; [apply bpow_gt_0|].
-        rewrite bpow_IZR by lia. apply IZR_lt. exact Hm.
-      + rewrite <- bpow_plus. apply bpow_le. lia. }
-  change (if negb s then Zneg m else Zpos m) with (z (negb s)). change (if s then Zneg m else Zpos m) with (z s).
-  destruct (HB (negb s) (negb s)) as (A1 & A2 & A3). destruct (HB s s) as (B1 & B2 & B3). cbv zeta in *.
+  destruct (widen_exact m e (negb s) (negb s) Hb) as (A1 & A2 & A3).
+  destruct (widen_exact m e s s Hb) as (B1 & B2 & B3). cbv zeta in *.
   apply B2R_Bsign_inj.
   - exact A2.
   - rewrite is_finite_Bopp. exact B2.
-  - rewrite B2R_Bopp, A1, B1. unfold z. destruct s; cbn [negb]; rewrite <- F2R_Zopp; reflexivity.
+  - rewrite B2R_Bopp, A1, B1. destruct s; cbn [negb]; rewrite <- F2R_Zopp; reflexivity.
   - rewrite Bsign_Bopp, A3, B3; [reflexivity|].
-    destruct (binary_normalize 53 1024 prec53_gt_0 prec53_lt_emax mode_NE (z s) e s); try reflexivity; discriminate B2.
+    destruct (binary_normalize 53 1024 prec53_gt_0 prec53_lt_emax mode_NE (if s then Zneg m else Zpos m) e s);
+      try reflexivity; discriminate B2.
+Qed.
+
+(* narrowing undoes widening: the `as f32` of serde's f32 visitor gives back the f32 the glue widened *)
+Lemma b32_of_b64_of_b32 : forall f : b32, b32_of_b64 (b64_of_b32 f) = f.
+Proof.
+  intros f. destruct f as [s|s| |s m e Hb]; try reflexivity.
+  cbn [b64_of_b32].
+  destruct (widen_exact m e s s Hb) as (B1 & B2 & B3). cbv zeta in B1, B2, B3.
+  set (f := B754_finite s m e Hb).
+  assert (HF : F2R (Float radix2 (if s then Zneg m else Zpos m) e) = B2R f).
+  { unfold f. cbn [B2R]. destruct s; reflexivity. }
+  rewrite HF in B1.
+  assert (Hnz : B2R f <> 0%R).
+  { unfold f. cbn [B2R]. destruct s; cbn [cond_Zopp].
+    - apply Rlt_not_eq. apply F2R_lt_0. reflexivity.
+    - apply Rgt_not_eq. apply F2R_gt_0. reflexivity. }
+  destruct (binary_normalize 53 1024 prec53_gt_0 prec53_lt_emax mode_NE (if s then Zneg m else Zpos m) e s)
+    as [s'|s'| |s' m' e' Hb'] eqn:Hg; try discriminate B2.
+  - exfalso. apply Hnz. rewrite <- B1. reflexivity.
+  - cbn [Bsign] in B3. subst s'. cbn [b32_of_b64].
+    set (g := B754_finite s m' e' Hb') in *.
+    assert (HG : F2R (Float radix2 (if s then Zneg m' else Zpos m') e') = B2R g).
+    { unfold g. cbn [B2R]. destruct s; reflexivity. }
+    assert (Hrnd : RNE32 (B2R f) = B2R f) by (apply RNE32_generic; exact (generic_format_B2R 24 128 f)).
+    destruct (bn32_correct (if s then Zneg m' else Zpos m') e' s) as (H1 & H2 & H3).
+    { rewrite HG, B1, Hrnd. exact (abs_B2R_lt_emax 24 128 f). }
+    cbv zeta in H1, H2, H3. rewrite HG, B1, Hrnd in H1. rewrite HG, B1 in H3.
+    apply B2R_Bsign_inj; [exact H2|reflexivity|exact H1|].
+    rewrite H3. unfold f. cbn [B2R Bsign].
+    destruct s.
+    + rewrite Rcompare_Lt; [reflexivity|]. apply F2R_lt_0. reflexivity.
+    + rewrite Rcompare_Gt; [reflexivity|]. apply F2R_gt_0. reflexivity.
 Qed.
 
 Theorem negint_agree : forall sig : N, (sig < two64N)%N -> negint_a sig = negint_s sig.
@@ -572,3 +612,4 @@ Print Assumptions C07_f32_negint_spec.
 Print Assumptions short_agree.
 Print Assumptions long_agree.
 Print Assumptions negint_agree.
+Print Assumptions b32_of_b64_of_b32.
